@@ -364,7 +364,7 @@ func (c07Engine) Count(tier string) int {
 	if tier == "thorough" {
 		return 40000
 	}
-	return 1500
+	return 3000
 }
 func (c07Engine) Rule() string {
 	return "Scenario i from H(VERIF_SEED,'C07',i): a pool of 3-6 programs (cheap / failing inside doubly nested closures by data or call fault / allocating, sized so the history's cumulative allocation crosses the budget repeatedly), 2-3 environment values (one with bad data), 1-3 long-lived vm.VM values and a history of 6-60 ops (vm, program, env, budget, crash instruction or call fault); plus crash-point enumeration: a program crashed at EVERY instruction k of its dynamic trace (hook), each time followed by a probe program on the same VM. One evaluation = one run on the reused VM compared with the same run on a fresh VM (identical fresh world). Non-trivial = an op executed on a VM that had already performed at least one run; distinct = distinct (program, env, budget, fault, crash point, prior-history digest) signatures."
